@@ -16,7 +16,7 @@ from common import *
 from persist_common import *
 import extract_c05
 import c05 as C05
-from c05 import Search, Rec, replay_events, forked, persisted_paths, uses_tree, translator_obligations, prove_with_gen, finish_dimensions
+from c05 import Search, Rec, replay_events, forked, persisted_paths, uses_tree, translator_obligations, prove_with_gen, finish_dimensions, pairwise_cases, finish_pairs
 
 F5 = "F5:var_config-sim-pointer-memcmp"
 K_PJH = "C05-N3:whfast-p_jh-uninitialised-bytes-compared"
@@ -50,6 +50,7 @@ class Search17(Search):
         try:
             a = build_sim(rb, cfg)
             advance(a, cfg["save_after"])
+            self.pre_save_edit(a, cfg)
         except Exception:
             self.hist["rejected_config"] = self.hist.get("rejected_config", 0) + 1
             return
@@ -121,12 +122,15 @@ class Search17(Search):
             self.hist["rejected_config"] = self.hist.get("rejected_config", 0) + 1
             return
         # copy and source evolve identically, and still compare equal
-        a = build_sim(rb, cfg); advance(a, cfg["save_after"]); R.save(a)
-        cp, _ = self.restore(a, path); attach(cp, cfg)
         try:
+            a = build_sim(rb, cfg); advance(a, cfg["save_after"]); self.pre_save_edit(a, cfg); R.save(a)
+            cp, _ = self.restore(a, path); attach(cp, cfg)
+            apply_ops(a, cfg.get("post", [])); apply_ops(cp, cfg.get("post", []))
             advance(a, k); advance(cp, k)
         except Exception:
             return
+        if cfg.get("pw_index") is not None:
+            self.hist["pwdone|%d" % cfg["pw_index"]] = 1
         va, vc = R.persisted_view(a), R.persisted_view(cp)
         d2 = R.first_difference(va, vc)
         d3 = R.first_difference(self.semantic(va), self.semantic(vc))
@@ -164,7 +168,7 @@ def run_cases17(c, S, cases, nproc=8, chunk=10):
     orig = C05.Search
     C05.Search = Search17
     try:
-        C05.run_cases(c, S, cases, nproc=nproc, chunk=chunk)
+        C05.run_cases(c, S, cases, nproc=nproc, chunk=chunk, budget=70)
     finally:
         C05.Search = orig
 
@@ -519,7 +523,7 @@ def run(c):
                       "c17_compare_self_partial needs the no-NaN hypothesis (C17-N1); c17_copy_equal_partial needs the no-variational-configuration hypothesis (F5)"]
     cfgs = lattice(c.thorough)
     c.cov["lattice_size"] = len(cfgs)
-    sub = [cf for i, cf in enumerate(cfgs) if c.thorough or i % 4 == (c.seed % 4)]
+    sub = [cf for i, cf in enumerate(cfgs) if c.thorough or i % 10 == (c.seed % 10)]
     correspondence(c, exe, rb, info, R, sub if not c.thorough else cfgs[::2], c.rng)
     c.log("correspondence done: %s pairs" % c.cov.get("compare_pairs"))
     paths = ["copy", "pickle", "buffer", "file"]
@@ -530,7 +534,17 @@ def run(c):
         cfg = dict(cfgs[c.rng.next() % len(cfgs)])
         cfg["save_after"] = c.rng.randint(0, 12)
         cases.append((cfg, paths[c.rng.next() % 4], c.rng.randint(1, 25)))
+    # pairwise covering array of the explicit factors (copy / compare version: in-memory paths, no twin kind)
+    f17 = OrderedDict((f, list(v)) for f, v in FACTORS.items() if f != "kind")
+    f17["path"] = ["copy", "pickle", "buffer", "file"]
+
+    def to_case17(fc):
+        cfg, path, k, kind = factor_cfg(dict(fc, kind="one"))
+        return cfg, path, k, "copy"
+    pw, pw_arr, pw_tot, pw_exc = pairwise_cases(c, f17, "c17", to_case17)
+    cases = [(x[0], x[1], x[2]) for x in pw] + dimension_first(cases, kind_of=lambda cs: "copy")
     run_cases17(c, S, cases)
+    finish_pairs(c, S, pw_arr, pw_tot, pw_exc, lambda more: run_cases17(c, S, [(x[0], x[1], x[2]) for x in more]), f17, to_case17)
     c.log("lattice done")
     perturbation_sweep(c, S, info, R, rb)
     element_sweep(c, S, info, R, rb)
